@@ -319,7 +319,48 @@ SYNC_KINDS = ["set_value1", "set_value2", "press", "refresh", "version", "channe
               "statq", "wc_set", "wc_update", "rem_update"]
 
 
+def independence(make):
+    """API-only: counters are per connection - calls on one instance never move another's, and a
+    fresh instance starts its cycles at 1 / 192 whatever happened elsewhere before."""
+    def scenario(sx):
+        a = make()
+        n = sx.choice("calls_on_a", 4)
+        got_a = []
+        for i in range(n):
+            got_a.append(a.get_and_increment_sequence_counter(bool(sx.choice(f"a_kind{i}", 2))))
+        b = make()
+        kb = bool(sx.choice("b_kind", 2))
+        rb = b.get_and_increment_sequence_counter(kb)
+        sx.check(rb == (192 if kb else 1), "ctr.fresh-instance-starts-its-own-cycle", lambda: f"{rb} after {got_a}")
+        ra = a.get_and_increment_sequence_counter(kb)
+        prev = [v for v, i in zip(got_a, range(n)) if (v >= 192) == kb]
+        exp = (prev[-1] + 1) if prev else (192 if kb else 1)
+        sx.check(ra == exp, "ctr.other-instance-does-not-interfere", lambda: f"{ra} vs {exp}")
+    return scenario
+
+
+def long_run(make):
+    """API-only: 450 calls from a fresh instance in a chosen interleaving pattern follow both cycles
+    through their wrap points (concrete run; complements the inductive step units)."""
+    def scenario(sx):
+        o = make()
+        pat = [(0,), (1,), (0, 1), (0, 0, 1), (1, 1, 0)][sx.choice("pattern", 5)]
+        exp = {0: 0, 1: 191}
+        for i in range(450):
+            k = pat[i % len(pat)]
+            r = o.get_and_increment_sequence_counter(bool(k))
+            exp[k] = (1 if exp[k] == 191 else exp[k] + 1) if k == 0 else (192 if exp[k] == 255 else exp[k] + 1)
+            if r != exp[k]:
+                sx.check(False, "ctr.long-run-follows-cycle", f"call {i} kind {k}: {r} expected {exp[k]}")
+                return
+        sx.check(True, "ctr.long-run-follows-cycle")
+    return scenario
+
+
 def units(tier):
+    for nm, mk in (("async-protocol", _mk_async_proto), ("threaded-socket", _mk_socket)):
+        yield Unit(f"independence.{nm}", independence(mk))
+        yield Unit(f"long-run.{nm}", long_run(mk), validate=False)
     yield Unit("step.async-protocol", _counter_step(_mk_async_proto))
     yield Unit("step.threaded-socket", _counter_step(_mk_socket))
     yield Unit("lock.threaded-socket", lock_discipline)
